@@ -61,9 +61,10 @@ type IfaceV struct {
 
 // StrV: strings are interned to 32-bit ids; concrete strings keep their text.
 type StrV struct {
-	conc bool
-	s    string
-	id   *Term // BV32
+	conc  bool
+	s     string
+	id    *Term   // BV32 (nil when bytes != nil)
+	bytes []*Term // short string of symbolic bytes (from string([]byte))
 }
 
 type StructV struct {
@@ -270,6 +271,9 @@ func IteV(c *Term, a, b Value) Value {
 		y := b.(*StrV)
 		if x == y || (x.conc && y.conc && x.s == y.s) {
 			return x
+		}
+		if x.bytes != nil || y.bytes != nil {
+			panic(unsupported("merge of byte-strings"))
 		}
 		return &StrV{id: Ite(c, x.id, y.id)}
 	case *StructV:
